@@ -1894,6 +1894,13 @@ def _normalise_names(crates, badts):
                 # the type moved to another module of the same crate under its own name (`linked_list::EventNode` -> `node::EventNode`)
                 cs = [n for n in new if n.split('::', 1)[0] == k.split('::', 1)[0] and n.rsplit('::', 1)[-1] == k.rsplit('::', 1)[-1]
                       and shape_cur(cur[n], n) == shape_base(badts[k], k)]
+                if not cs:
+                    # ... together with the types it refers to (a group of mutually referring types moved into one new module): compare
+                    # the shapes with the new module's path read as the old one
+                    def shape_moved(a, own, frm, to):
+                        return (a.get('kind'), tuple(tuple(f['ty'].replace(own, 'Self').replace(frm + '::', to + '::') for f in v['fields']) for v in a.get('variants', [])))
+                    cs = [n for n in new if n.split('::', 1)[0] == k.split('::', 1)[0] and n.rsplit('::', 1)[-1] == k.rsplit('::', 1)[-1]
+                          and shape_moved(cur[n], n, par(n), par(k)) == shape_base(badts[k], k)]
             if len(cs) == 1:
                 cand[k] = cs[0]
         used = defaultdict(list)
@@ -1981,6 +1988,28 @@ def _callees_with_closures(P, f):
     return out
 
 
+def _callees_through_new(P, f, base, depth=3):
+    """callees of f (with its closures), looking through functions that are not pinned (new private helpers): what f still calls when
+    part of its body was extracted"""
+    out = set()
+    seen = set()
+    todo = [f]
+    for _ in range(depth + 1):
+        nxt = []
+        for g in todo:
+            if g.key in seen:
+                continue
+            seen.add(g.key)
+            cs = _callees_with_closures(P, g)
+            out |= cs
+            for c in cs:
+                h = P.fns.get(c)
+                if h is not None and c not in base and h.kind in ('fn', 'assocfn'):
+                    nxt.append(h)
+        todo = nxt
+    return out
+
+
 def apply_renames(P, base):
     """A function of the pinned tree that no longer exists while exactly one NEW function with the same parent path and the
     same signature appeared is treated as renamed: the new function answers to the old key (rules anchor on pinned names).
@@ -2049,7 +2078,7 @@ def apply_renames(P, base):
             cs = [f for f in new if f.key.rsplit('::', 1)[-1] == last and not f.trait and is_new_type(f)
                   and module_of2(parent(f.key)) == module_of2(parent(k))
                   and len(fn_signature(f)) == len(base[k]) and fn_signature(f)[0] == base[k][0] and fn_signature(f)[2:] == base[k][2:]
-                  and old_callees <= _local_callees(P, f) | {c for g in P.fn_list if g.kind == 'closure' and g.root == f.key for c in _local_callees(P, g)}
+                  and old_callees <= _callees_through_new(P, f, base)
                   and any(f.key in _local_callees(P, P.fns[c]) or any(f.key in _local_callees(P, g) for g in P.fn_list if g.kind == 'closure' and g.root == c)
                           for c in old_callers if c in P.fns)]
         if not cs and len(base[k]) > 1:
